@@ -25,7 +25,7 @@ type laneSpec struct {
 	ev            *isaEval
 	e             *IsaEntry
 	entry         *State
-	accFull       map[string]Term // VCCBIT / SDSTBIT: prescribed 64-lane mask
+	accFull       map[string]Term        // VCCBIT / SDSTBIT: prescribed 64-lane mask
 	accExit       map[string]func() Term // the handler's accumulator for a mask key, read after the loop
 	done          bool
 	skb           Term
